@@ -83,6 +83,7 @@ Definition buf_reset (b : buffer) : buffer :=
 Definition le16 (n : nat) : Z * Z :=
   let z := (Z.of_nat n mod 65536)%Z in ((z mod 256)%Z, (z / 256)%Z).
 Definition dec16 (p : Z * Z) : nat := Z.to_nat (fst p + 256 * snd p)%Z.
+Definition hdr (l : list Z) : Z * Z := (nth 0 l 0%Z, nth 1 l 0%Z).
 
 (* ------------------------------------------------------------------------- *)
 (* the scripted transport shared by the two endpoints of one direction *)
@@ -185,7 +186,8 @@ Section Stream.
   Definition FC : nat := PC + AUTH + LENF.            (* MAX_FRAME_LEN *)
 
   Record wst : Type := { w_payload : buffer; w_frame : buffer; w_sent : list (list Z) }.
-  Record rst : Type := { r_payload : buffer; r_frame : buffer; r_got : list (list Z * list Z) }.
+  (* r_got: ghost log of the accepted frames: header bytes, ciphertext, plaintext *)
+  Record rst : Type := { r_payload : buffer; r_frame : buffer; r_got : list (Z * Z * list Z * list Z) }.
   Definition w_init : wst := {| w_payload := buf_new PC; w_frame := buf_new FC; w_sent := [] |}.
   Definition r_init : rst := {| r_payload := buf_new PC; r_frame := buf_new FC; r_got := [] |}.
 
@@ -329,7 +331,7 @@ Section Stream.
             let* fr1 := buf_take (r_frame r1) (LENF + L) in
             let fr2 := buf_shift fr1 in
             let* pl2 := buf_extend pl1 (length p) in
-            Ok ({| r_payload := pl2; r_frame := fr2; r_got := r_got r1 ++ [(c, p)] |}, n1, PReady tt)
+            Ok ({| r_payload := pl2; r_frame := fr2; r_got := r_got r1 ++ [(hdr (buf_as_slice (r_frame r1)), c, p)] |}, n1, PReady tt)
         end
     end.
 
@@ -491,8 +493,8 @@ Definition xor_at (l : list Z) (off : nat) (mask : Z) : list Z :=
   | [] => l
   end.
 Definition slice (l : list Z) (off len : nat) : list Z := firstn len (skipn off l).
-Definition junk (seed : Z) (len : nat) : list Z :=
-  map (fun i => Z.land (Z.of_nat i * 7 + seed) 255)%Z (seq 0 len).
+Fixpoint junk (seed : Z) (len : nat) : list Z :=
+  match len with O => [] | S len' => Z.land seed 255 :: junk (seed * 5 + 7)%Z len' end.
 
 Definition tamper_of (k : tkind) : tamper_fn := fun hist consumed chan =>
   let tbl := frame_table (S (length hist)) 0 hist in
@@ -584,9 +586,13 @@ Definition MAX_PAYLOAD_LEN : nat := Z.to_nat 65519.
 (* correspondence driver *)
 
 (* plaintext pattern: byte i of the stream written in a case with the given salt *)
-Definition pat (salt : Z) (i : nat) : Z :=
-  Z.land (Z.shiftr (Z.of_nat i * 1103515245 + salt) 16) 255.
-Definition pat_bytes (salt : Z) (start len : nat) : list Z := map (pat salt) (seq start len).
+Definition PATK : Z := 1103515245.
+Definition pat (salt : Z) (i : Z) : Z := Z.land (Z.shiftr (i * PATK + salt) 16) 255.
+(* y = i * PATK + salt, kept incrementally *)
+Fixpoint pat_from (y : Z) (len : nat) : list Z :=
+  match len with O => [] | S len' => Z.land (Z.shiftr y 16) 255 :: pat_from (y + PATK)%Z len' end.
+Definition pat_bytes (salt : Z) (start len : nat) : list Z :=
+  pat_from (Z.of_nat start * PATK + salt)%Z len.
 
 Inductive cop : Type :=
 | CWrite (len : nat) (script : list Z)
